@@ -98,6 +98,9 @@ def finish(rng, spec, profile, big=False, T=None):
         spec['between'] = between_actions(rng, spec)
     spec['profile'] = profile
     spec.setdefault('maint', rng.choice([0, 1, 1, 2, 2, 3, INF]))
+    for d in all_devs(spec):
+        if d['k'] == 'G' and 'style' not in d and rng.random() < 0.5:
+            d['style'] = rng.randrange(20)      # the decider says no / yes with None, 0, '', [] / 1, 'yes', [0]
     return spec
 
 
@@ -145,7 +148,7 @@ def handler(rng, name, up):
 
 def source(rng, name, batch_p=0.25):
     c = rng.choice(GRID)
-    budget = rng.choice([INF, INF, 1, 3, 7, 12, 0]) if c > 0 else rng.choice([1, 3, 7, 12, 0])      # W1
+    budget = rng.choice([INF, INF, 1, 3, 7, 12, 0, 2.5, 6.75]) if c > 0 else rng.choice([1, 3, 7, 12, 0, 2.5])      # W1 (fractional: only whole parts are supplied)
     batch = None
     if rng.random() < batch_p:
         batch = rng.choice([0, 2, 3, [1, 3], [2, 0, 4], [3, 2]])
@@ -926,6 +929,11 @@ def specs(mix, trace_p=0.0, noisy_p=0.0):
         spec = PROFILES[which](rng)
         if trace_p and rng.random() < trace_p:
             spec['trace'] = True
+            if len(spec['T']) > 1 and rng.random() < 0.5:
+                fl = [rng.random() < 0.5 for _ in spec['T']]
+                if not any(fl):
+                    fl[0] = True
+                spec['trace'] = fl
         if noisy_p and rng.random() < noisy_p:
             spec = noisy(spec, rng)
         return spec
